@@ -239,6 +239,22 @@ def search_c03(results, tier, seed, broken):
     hits, n, nontriv = [], 0, set()
     dist = Counter()
     for comp, streams, r in results:
+        if comp == "integrity":
+            # adaptive compensation between the two published blinding scalars of an ACCEPTED proof: the altered proof has the
+            # same points, t_x and x, y, z (all derived before t_x_blinding is absorbed) but another t_x_blinding, so relation (b)
+            # t_x.B + t~.B~ = ... cannot hold for it (B~ <> 0, C09_component_injective): if verify accepts it, the combined
+            # check accepts something the separate relations reject
+            for row in getattr(r, "integrity", []):
+                if row["kind"] != "ADAPTB":
+                    continue
+                n += row["total"]
+                dist["adaptive accepted"] += row["accepted"]
+                nontriv.add(("adaptive", row["curve"], row["proof"]))
+                if row["accepted"] > 0:
+                    hits.append({"component": comp, "streams": streams, "case": "ADAPTIVE:%s:%d" % (row["curve"], row["proof"]), "outdir": r.outdir,
+                                 "what": "verify accepts a proof obtained from an accepted one by changing t_x_blinding (and e_blinding to compensate, using the verifier's own challenge r for the altered proof): relation (b) held for the original t_x_blinding and B~ is not the identity, so it fails for the altered proof, yet the combined check accepts (%d of %d on %s); first: %s" % (
+                                     row["accepted"], row["total"], row["curve"], row["first"][:3000])})
+            continue
         if comp != "r1cs":
             continue
         for cid, s in r.summary.items():
@@ -942,7 +958,7 @@ PROPS = {
     "C03": {
         "prop_files": ["Properties/C03.v"], "run_files": ["Run/R1cs.v"],
         "level": "proof",
-        "components": lambda tier: [("r1cs", ["honest", "violate", "mutate", "mutfields", "mutsmall", "forced", "forge", "statement"], {})],
+        "components": lambda tier: [("r1cs", ["honest", "violate", "mutate", "mutfields", "mutsmall", "forced", "forge", "statement"], {}), ("integrity", ["integrity"], {})],
         "search": search_c03,
         "assumptions": ["field and module laws (hypotheses)", "challenges = oracle on the transcript history; the challenges the run inverts are non-zero (all_nz hypothesis)"],
     },
